@@ -1,7 +1,7 @@
 #!/bin/sh
 # usage: sens.sh <fix-commit> <check-id> [tier]   -- reverse-applies a fix commit to /repo's working tree,
 # runs the check (expected: VIOLATION, exit 1), restores the tree.
-[ -z "$VERIF_NOLOCK" ] && exec env VERIF_NOLOCK=1 flock -x /tmp/.verif-repo.lock "$0" "$@"
+[ -z "$VERIF_NOLOCK" ] && exec env VERIF_NOLOCK=1 VERIF_SCRATCH=/tmp/verif-scratch flock -x /tmp/.verif-repo.lock "$0" "$@"
 c=$1; id=$2; tier=${3:-quick}
 cd /repo || exit 2
 git diff --quiet || { echo "/repo dirty"; exit 2; }
